@@ -84,6 +84,28 @@ CHECKS = {
         note="Models are fixed by declared constant leaves and by a preceding real assume().",
         technique="Lean 4 theorem (mutual induction; reduce's bounds = evaluation on the empty interpretation) + differential correspondence",
         ref="§4 C08"),
+    "C11": dict(
+        text=("Theorems (Props/C11.lean, positional model of ge_polyhedron): redRows_sound (reported rows hold at every in-box "
+              "point); redCols_forced (a column reported with a value takes it in every in-box solution, value within bounds; "
+              "via C12); reduce_sound + reduce_complete + empty_stays_empty (for masks satisfying Cert — forced columns within "
+              "bounds, removed rows implied — the reduced polyhedron's solutions are exactly the projections of the original "
+              "ones, with merge as inverse); rrc_cert: the fixpoint loop of reducable_rows_and_columns (any fuel) returns masks "
+              "satisfying Cert, proved by a loop invariant through the scatter/keep composition lemmas; reduce_shape. Tie: "
+              "reducable_rows, reducable_columns_approx, reducable_rows_and_columns and reduce compared with the model on "
+              "seeded matrices; oracle: full enumeration of the box; variables/index of the result checked against its shape."),
+        note="Hypotheses: declared bounds within the default int16 range (the code masks with those constants), matrix rows as long as the column list. float64 floor division assumed exact on generated magnitudes. The literal reading of 'reported rows hold at every in-box point' is applied to reducable_rows() (DESIGN §4 C11).",
+        technique="Lean 4 theorem (list induction, loop invariant over the fixpoint iteration) + differential correspondence + enumeration oracle",
+        ref="§4 C11"),
+    "C12": dict(
+        text=("Theorems (Props/C12.lean): tightenCol_sound — every in-box integer solution lies within the tightened bounds of "
+              "each column (floor division with positive and negative divisors); tightenCol_within — never wider than declared; "
+              "crossed_infeasible; tighten_get (the vector is tightenCol column by column); rowBounds_enclose + "
+              "rowBounds_attained — reported row bounds are exactly min and max of row.x - b over the box (explicit witnesses). "
+              "Tie: tighten_column_bounds, row_bounds, n_row_combinations compared with the model; oracle: full enumeration of "
+              "the box incl. the per-row combination counts."),
+        note="n_row_combinations is tied and enumerated but has no theorem yet. At least one row and column; bounds within int16 range; float64 floor division assumed exact on generated magnitudes.",
+        technique="Lean 4 theorem (Int.ediv lemmas, list induction) + differential correspondence + enumeration oracle",
+        ref="§4 C12"),
     "C03": dict(
         text=("Theorems (Props/C03.lean): on every interpretation fixing all leaves, interval evaluation returns exactly the "
               "point value of the arithmetic truth function with the two override rules (evaluate_total), which is the plain "
